@@ -50,6 +50,9 @@ func (r *Rand) Chance(num, den int) bool { return r.Intn(den) < num }
 
 func (r *Rand) Pick(ss []string) string { return ss[r.Intn(len(ss))] }
 
+// Pick2 picks from a slice of ints.
+func (r *Rand) Pick2(xs []int) int { return xs[r.Intn(len(xs))] }
+
 // Weighted picks an index according to weights.
 func (r *Rand) Weighted(w []int) int {
 	t := 0
